@@ -110,10 +110,12 @@ impl Check for C01 {
                 let mut t2 = tails.clone();
                 t2.extend(fam::cmd_tails(seed, true, true));
                 push(fam::conventional(2, &t2, seed), 3, false);
-                // one item, deeper, full alphabet (aliases, clusters, lone dash)
-                push(fam::conventional(1, &t2, seed + 1), 4, true);
+                // one item, deeper, full alphabet (aliases, clusters, lone dash, empty inline
+                // values): length 4 without commands, length 3 with them
+                push(fam::conventional(1, &tails, seed + 1), 4, true);
+                push(fam::conventional(1, &fam::cmd_tails(seed, true, true), seed + 1), 3, true);
                 // fallback_to_usage on every level: only a line without any item may print usage
-                push(with_usage_fallback(fam::conventional(2, &t2, seed + 2)).into_iter().step_by(3).collect(), 3, false);
+                push(with_usage_fallback(fam::conventional(2, &t2, seed + 2)).into_iter().step_by(5).collect(), 3, false);
             }
             Tier::Thorough => {
                 let mut t2 = tails.clone();
@@ -170,7 +172,7 @@ impl Check for C01 {
     }
     fn bounds(&self, tier: Tier) -> Value {
         match tier {
-            Tier::Quick => json!({"named_items_per_level": "<=2 (all 10 kinds, ordered)", "tails": "none, 7 positional suffixes, command tails incl. depth 3, aliases, optional/fallback choice", "vector_length": "3 (compact alphabet), 4 (<=1 item, full alphabet)"}),
+            Tier::Quick => json!({"named_items_per_level": "<=2 (all 10 kinds, ordered)", "tails": "none, 7 positional suffixes, command tails incl. depth 3, aliases, optional/fallback choice", "vector_length": "3 (compact alphabet), 4 (<=1 item, full alphabet, no commands), 3 (<=1 item, full alphabet, commands; fallback_to_usage sample)"}),
             Tier::Thorough => json!({"named_items_per_level": "<=3", "vector_length": "4 (<=2 items), 5 (<=1 item, full alphabet), 3 (3 items)"}),
         }
     }
